@@ -342,11 +342,13 @@ func c03RunClient(dial func(ctx context.Context, network, addr string) (net.Conn
 	if early {
 		stream = true
 	}
+	pos := cc.position()
 	if stream {
 		cc = nil
 	}
 	c := C().SetDial(dial).SetTimeout(4 * time.Second)
 	cc.prepClient(c)
+	c03ApplyPos(c, pos)
 	c.GetTransport().DisableCompression = true
 	first := true
 	if stream {
@@ -473,6 +475,7 @@ func TestVerif_C03_h1cut(t *testing.T) {
 			"Compared with the model: fail / ok+status+body, and the number of dials (1 iff the model allows reuse). Oracle: success implies the complete true body; second request succeeds; "+
 			"no dial before the second request beyond the first. non-trivial = cut strictly inside the message")
 	r := s.Rand()
+	rp := c03PosRand(1) // the round-6 dimensions draw from their own stream
 	nMsgs := verifh.N(220, 1500)
 	counts := map[string]int{}
 	cnt := func(k string) { s.Count(k); counts[k]++ }
@@ -499,7 +502,9 @@ func TestVerif_C03_h1cut(t *testing.T) {
 				continue
 			}
 			mode := "eof"
-			if r.Intn(4) == 0 && k < len(m.stream) && m.framing != "close" {
+			// the connection ends with RST instead of FIN: for a close-delimited body that is the
+			// difference between a clean end and a read error, at every offset (every other k)
+			if rst := r.Intn(4) == 0; k < len(m.stream) && (rst || (m.framing == "close" && rp.Intn(2) == 0)) {
 				mode = "reset"
 			}
 			vs = append(vs, variant{k: k, mode: mode})
@@ -557,6 +562,17 @@ func TestVerif_C03_h1cut(t *testing.T) {
 			if (m.framing == "close" && cc.mode == "result") || m.code == 101 {
 				cc.mode = "auto" // (the "body" of a 101 is the raw connection: nothing to save)
 			}
+			// exchange position: the scripted response answers the authorized request of a digest
+			// exchange / the last attempt of a retried call / the request after a redirect
+			if cc.pos = c03PickPos(rp, cc.mode, v.k > 0); cc.pos != "" && m.code != 101 {
+				nw.scripts[0] = append([]c03Step{{data: c03PreludeH1(cc.pos)}}, first...)
+				cnt("pos:" + cc.pos)
+				if v.k < len(wire) || v.stream != "" {
+					cnt("pos-cut:" + cc.pos)
+				}
+			} else {
+				cc.pos = ""
+			}
 			obs := c03RunClient(nw.dial, func() int { nw.mu.Lock(); defer nw.mu.Unlock(); return nw.dials }, m.head, stream, verifh.Pick(r, []int{1, 5, 64, 4096}), v.mode == "early", nw.closeAll, cc)
 			callerName := cc.name()
 			if stream || v.mode == "early" {
@@ -582,6 +598,8 @@ func TestVerif_C03_h1cut(t *testing.T) {
 				}
 			} else if strings.HasPrefix(obs.first, "ok") {
 				switch {
+				case m.framing == "close" && v.mode == "reset":
+					ok, why = false, "close-delimited response whose connection was RESET reported as success (a RST is never a clean end)"
 				case m.framing == "close":
 					// a cut is indistinguishable from the end: the body must be the bytes received
 					if he := m.headEnd(); v.k >= he && obs.first != "ok code="+strconv.Itoa(m.code)+" body="+verifh.Hex(m.stream[he:v.k]) {
@@ -624,10 +642,13 @@ func TestVerif_C03_h1cut(t *testing.T) {
 				mtag = "H"
 			}
 			mode := v.mode
-			if mode == "reset" {
-				mode = "eof"
+			if mode == "reset" && m.framing == "close" {
+				cnt("close-reset")
+				if v.k > m.headEnd() {
+					cnt("close-reset-in-body")
+				}
 			}
-			human := fmt.Sprintf("%s framing=%s len=%d %s cut k=%d then %s (caller=%s) -> %s | err=%s", mtag, m.framing, len(wire), v.tag, v.k, v.mode, callerName, impl, obs.firstErr)
+			human := fmt.Sprintf("%s framing=%s len=%d %s cut k=%d then %s (caller=%s pos=%s) -> %s | err=%s", mtag, m.framing, len(wire), v.tag, v.k, v.mode, callerName, cc.pos, impl, obs.firstErr)
 			if why != "" {
 				human += " ORACLE: " + why
 			}
@@ -638,7 +659,8 @@ func TestVerif_C03_h1cut(t *testing.T) {
 	if failures >= 12 {
 		return
 	}
-	for _, need := range []string{"framing:len", "framing:chunked", "framing:close", "framing:none", "mode:eof", "mode:reset", "mode:hold", "mode:early", "corrupt-size", "corrupt-crlf", "early-partial", "caller:transformer", "caller:output", "caller:outputfile", "caller:callback", "caller:result", "caller:dump", "caller:autodecode", "caller:retry", "caller:stream", "first-ok", "first-fail", "reused"} {
+	for _, need := range []string{"framing:len", "framing:chunked", "framing:close", "framing:none", "mode:eof", "mode:reset", "mode:hold", "mode:early", "corrupt-size", "corrupt-crlf", "early-partial", "caller:transformer", "caller:output", "caller:outputfile", "caller:callback", "caller:result", "caller:dump", "caller:autodecode", "caller:retry", "caller:stream", "first-ok", "first-fail", "reused",
+		"close-reset", "close-reset-in-body", "pos:digest", "pos:retried", "pos:redirect", "pos-cut:digest", "pos-cut:retried", "pos-cut:redirect"} {
 		if counts[need] == 0 {
 			t.Errorf("C03/h1cut never reached bucket %q", need)
 		}
@@ -754,6 +776,7 @@ func TestVerif_C03_h1tcp(t *testing.T) {
 		"the h1cut experiment over loopback TCP: a raw TCP peer reads the request, writes the first k bytes of a generated response and closes (FIN) or resets (SO_LINGER 0); stratified k; "+
 			"judged by the oracle: success implies k = len and the true body (close-delimited: the bytes sent); failure implies a fresh connection for the second request, which must succeed")
 	r := s.Rand()
+	rp := c03PosRand(2) // the round-6 dimensions draw from their own stream
 	peers := []*c03TCPPeer{newC03TCPPeer(t), newC03TCPPeer(t), newC03TCPPeer(t), newC03TCPPeer(t)}
 	defer func() {
 		for _, p := range peers {
@@ -771,6 +794,12 @@ func TestVerif_C03_h1tcp(t *testing.T) {
 		if i%8 == 7 {
 			m = c03GenMsg(r, 20000)
 		}
+		if i%5 == 2 {
+			// a guaranteed share of close-delimited responses with a body (FIN vs RST at body offsets)
+			for m.framing != "close" || len(m.body) < 4 || m.n1xx > 5 {
+				m = c03GenMsg(rp, 300)
+			}
+		}
 		for _, k := range c03Cuts(r, m.stream, false, verifh.N(3, 8)) {
 			if k < 0 || k > len(m.stream) {
 				continue
@@ -779,10 +808,11 @@ func TestVerif_C03_h1tcp(t *testing.T) {
 			p := peers[id%len(peers)]
 			mode := "eof"
 			end := error(io.EOF)
-			if r.Intn(3) == 0 && k < len(m.stream) && m.framing != "close" {
+			// RST (SO_LINGER 0) instead of FIN; close-delimited bodies at every other offset
+			if rst := r.Intn(3) == 0; k < len(m.stream) && (rst || (m.framing == "close" && rp.Intn(2) == 0)) {
 				mode, end = "reset", errC03Reset
 			}
-			p.next([][]c03Step{{{data: []byte(m.stream[:k]), end: end}}, {{data: c03SecondWire}}})
+			firstSteps := []c03Step{{data: []byte(m.stream[:k]), end: end}}
 			addr := p.ln.Addr().String()
 			dial := func(ctx context.Context, network, _ string) (net.Conn, error) {
 				var d net.Dialer
@@ -793,6 +823,16 @@ func TestVerif_C03_h1tcp(t *testing.T) {
 			if m.code == 101 {
 				cc.mode = "auto"
 			}
+			// (only with FIN: a RST may overtake the bytes already sent, and a reused connection that
+			// fails before the first response byte is replayed by the transport on a fresh one)
+			if cc.pos = c03PickPos(rp, cc.mode, k > 0 && mode == "eof"); cc.pos != "" && m.code != 101 {
+				firstSteps = append([]c03Step{{data: c03PreludeH1(cc.pos)}}, firstSteps...)
+				s.Count("pos:" + cc.pos)
+				reached["pos:"+cc.pos]++
+			} else {
+				cc.pos = ""
+			}
+			p.next([][]c03Step{firstSteps, {{data: c03SecondWire}}})
 			obs := c03RunClient(dial, p.count, m.head, stream, verifh.Pick(r, []int{1, 64, 4096}), false, func() { p.next(nil) }, cc)
 			s.Count("caller:" + cc.name())
 			ok, why := true, ""
@@ -800,6 +840,8 @@ func TestVerif_C03_h1tcp(t *testing.T) {
 			if strings.HasPrefix(obs.first, "ok") {
 				he := m.headEnd()
 				switch {
+				case m.framing == "close" && mode == "reset":
+					ok, why = false, "close-delimited response whose connection was RESET reported as success (a RST is never a clean end)"
 				case m.framing == "close":
 					if k < he || obs.first != "ok code="+strconv.Itoa(m.code)+" body="+verifh.Hex(m.stream[he:k]) {
 						ok, why = false, "close-delimited body differs from the bytes sent"
@@ -829,9 +871,13 @@ func TestVerif_C03_h1tcp(t *testing.T) {
 				failures++
 			}
 			reached["mode:"+mode]++
+			if mode == "reset" && m.framing == "close" && k > m.headEnd() {
+				reached["close-reset-in-body"]++
+				s.Count("close-reset-in-body")
+			}
 			s.Count("framing:" + m.framing)
 			s.Count("mode:" + mode)
-			human := fmt.Sprintf("tcp framing=%s len=%d cut k=%d then %s (caller=%s) -> %s dials=%d err=%s", m.framing, len(m.stream), k, mode, cc.name(), obs.first, obs.dials, obs.firstErr)
+			human := fmt.Sprintf("tcp framing=%s len=%d cut k=%d then %s (caller=%s pos=%s) -> %s dials=%d err=%s", m.framing, len(m.stream), k, mode, cc.name(), cc.pos, obs.first, obs.dials, obs.firstErr)
 			if why != "" {
 				human += " ORACLE: " + why
 			}
@@ -842,7 +888,7 @@ func TestVerif_C03_h1tcp(t *testing.T) {
 	if failures >= 12 {
 		return
 	}
-	for _, need := range []string{"first-ok", "first-fail", "mode:eof", "mode:reset"} {
+	for _, need := range []string{"first-ok", "first-fail", "mode:eof", "mode:reset", "close-reset-in-body", "pos:digest", "pos:retried"} {
 		if reached[need] == 0 {
 			t.Errorf("C03/h1tcp never reached %q", need)
 		}
